@@ -23,7 +23,8 @@ EXPLANATION = (
     "swallow against a frozen allow-list."
     ' Also: (R6) on the AmbiguousCommitError route no handler/finally deletes, and no handler along the chain converts or swallows the ambiguous error; (R7) the conditional pointer PUT is not retried.'
     ' (R8) who-may-delete census (shared with C09.R3).'
-    ' (R10) a reused Transaction object starts empty: begin() resets _written_files / _inflight_markers (a non-deleting rollback keeps them on purpose) - shared with C01.R5.')
+    ' (R10) a reused Transaction object starts empty: begin() resets _written_files / _inflight_markers (a non-deleting rollback keeps them on purpose) - shared with C01.R5.'
+    " R1 also requires the local backend (rename-published, nothing raising after the rename) to report clean write failures as clean; R7 requires the CAS conflict code set to be exactly S3's precondition-failure answers.")
 NOT_DECIDED = ("the resulting table state after each fault; what S3 does with an errored PUT; double faults "
                "at run time")
 
@@ -189,6 +190,14 @@ def r1(ctx: Ctx) -> None:
             continue
         m = ci.methods["atomic_write_failures"]
         rets = [n for n in ast.walk(m.node) if isinstance(n, ast.Return)]
+        if ci.name == "LocalStorageBackend":
+            # the local backend publishes by temp file + rename and nothing can raise after the rename (proved below): it MUST
+            # say so - a False here makes every cleanly failed pointer write 'ambiguous', the uncommitted metadata file is kept,
+            # and hint-less recovery (highest version on disk) later surfaces a version that was never committed
+            ctx.ob("C04.R1", m, "the local backend reports clean write failures as clean", None,
+                   bool(rets) and all(is_const(r.value, True) for r in rets),
+                   "LocalStorageBackend.atomic_write_failures is True" if rets and all(is_const(r.value, True) for r in rets) else
+                   "a failed local write is classified ambiguous: commit() keeps the metadata file of a commit that did not happen")
         if not any(is_const(r.value, True) for r in rets):
             continue
         wf = ctx.prog.find_method(ci, "write_file")
